@@ -150,7 +150,10 @@ def C.cs (c : C) : C := c.ws (clearSess c.s.sess)
 theorem clearStoreRelated_cs (c : C) : clearStoreRelated c.cs = clearStoreRelated c := by
   simp [clearStoreRelated, C.cs, C.ws, setSess, clearSess, St.sess, Alloc.clear]
 
-theorem clearStoreRelated_eq_cs (c : C) : clearStoreRelated c = c.cs := by
+/-- `clear_store_related` = clearing the session bookkeeping and (fix 9ba24a9) zeroing the
+    Receive-Maximum counter -/
+theorem clearStoreRelated_eq_cs (c : C) :
+    clearStoreRelated c = { c.cs with s := { c.cs.s with sendCount := 0 } } := by
   simp [clearStoreRelated, C.cs, C.ws, setSess, clearSess, St.sess]
 
 theorem cs_cs (c : C) : c.cs.cs = c.cs := by
@@ -172,8 +175,9 @@ theorem prV3Connack_new (c : C) (q : Pkt) (hst : c.s.status ≠ .connected) (hrc
     (hsp : q.sp = false) : prV3Connack c (.ok q) = prV3Connack c.cs (.ok q) := by
   have e : c.cs.s.status = c.s.status := rfl
   simp only [prV3Connack, e, hst, if_false, hrc, if_true, hsp, Bool.false_eq_true]
-  rw [clearStoreRelated_eq_cs, clearStoreRelated_eq_cs]
-  congr 1
+  have : ({ c.cs with s := { c.cs.s with status := .connected } } : C) =
+      ({ c with s := { c.s with status := .connected } } : C).cs := rfl
+  rw [this, clearStoreRelated_cs]
 
 theorem prV5Connack_new (c : C) (q : Pkt) (hst : c.s.status ≠ .connected) (hrc : q.rc = some 0)
     (hsp : q.sp = false) : prV5Connack c (.ok q) = prV5Connack c.cs (.ok q) := by
